@@ -445,6 +445,422 @@ theorem parseVecItems_consumed_le {p : VecParam} {item : Bytes → Except PErr (
   have hd : (bs.drop p.numSize).length = bs.length - p.numSize := List.length_drop
   omega
 
+/-! ### the structured bodies (CpModel/Tls/Ext2.lean) -/
+
+theorem parseName_opaque {p : VecParam} {table : List Gen.WireName} {bs : Bytes} {i n : Nat}
+    (h : parseName p table bs = .ok (i, n)) : ∃ raw, parseOpaque p bs = .ok (raw, n) := by
+  unfold parseName at h
+  obtain ⟨⟨raw, m⟩, h1, h⟩ := exceptBind_ok_inv h
+  simp only at h
+  split at h
+  · simp only [pure, Except.pure] at h
+    cases h
+    exact ⟨raw, h1⟩
+  · cases h
+
+theorem nameTicks_ok {p : VecParam} {table : List Gen.WireName} {bs : Bytes} {i n : Nat}
+    (h : parseName p table bs = .ok (i, n)) : nameTicks p table bs ≤ 2 * n + (table.length + 5) := by
+  obtain ⟨raw, ho⟩ := parseName_opaque h
+  have := opaqueTicks_ok_le ho
+  unfold nameTicks; clean_mdata; omega
+
+theorem nameTicks_any (p : VecParam) (table : List Gen.WireName) (bs : Bytes) :
+    nameTicks p table bs ≤ 2 * bs.length + (table.length + 5) := by
+  have := opaqueTicks_le p bs
+  unfold nameTicks; clean_mdata; omega
+
+theorem nameVecA_eq (table : List Gen.WireName) : nameVecA table = 2 + (table.length + 5) + 1 + 1 := by
+  unfold nameVecA; omega
+
+theorem namesVecTicks_ok {pl p : VecParam} {table : List Gen.WireName} {sizeOf : Nat → Except PErr Nat} {bs : Bytes}
+    {xs : List Nat} {t : Nat} (h : parseVecItems pl (parseName p table) sizeOf bs = .ok (xs, t)) :
+    vecItemsTicks pl (parseName p table) (nameTicks p table) bs ≤ nameVecA table * t + 4 := by
+  rw [nameVecA_eq]
+  exact vecItemsTicks_ok_le (fun _ _ _ h => (parseName_ok_inv h).2.2) (fun _ _ _ h => nameTicks_ok h)
+    (fun bs _ _ => nameTicks_any p table bs) h
+
+theorem namesVecTicks_any (pl p : VecParam) (table : List Gen.WireName) (bs : Bytes) :
+    vecItemsTicks pl (parseName p table) (nameTicks p table) bs ≤ nameVecA table * bs.length + 4 := by
+  rw [nameVecA_eq]
+  exact vecItemsTicks_le (fun _ _ _ h => (parseName_ok_inv h).2.2) (fun _ _ _ h => nameTicks_ok h)
+    (fun bs _ _ => nameTicks_any p table bs) bs
+
+theorem body_arith {K len T U : Nat} (hT : T ≤ K * len + 1) (hU : U ≤ 1 + len) : 1 + T + U ≤ (K + 1) * len + 3 := by
+  have h4 : (K + 1) * len = K * len + len := by rw [Nat.add_mul, Nat.one_mul]
+  clean_mdata
+  omega
+
+/-- the body of a vector whose prefix was read elsewhere: linear in the declared length -/
+theorem vecBodyTicks_le {α : Type} {item : Bytes → Except PErr (α × Nat)} {itemTicks : Bytes → Nat} {a c : Nat}
+    (hlen : ∀ bs x n, item bs = .ok (x, n) → n ≤ bs.length)
+    (hok : ∀ bs x n, item bs = .ok (x, n) → itemTicks bs ≤ a * n + c)
+    (herr : ∀ bs e, item bs = .error e → itemTicks bs ≤ a * bs.length + c) (len : Nat) (rest : Bytes) :
+    vecBodyTicks item itemTicks len rest ≤ (a + c + 1 + 1) * len + 3 ∧
+      vecBodyTicks item itemTicks len rest ≤ (a + c + 1 + 1) * rest.length + 3 := by
+  unfold vecBodyTicks
+  split
+  · exact ⟨by omega, by omega⟩
+  · next hshort =>
+    have hl : (rest.take len).length = len := by rw [List.length_take]; omega
+    have h1 := parseItemsTicks_le hlen hok herr len (rest.take len)
+    rw [hl] at h1
+    have key : 1 + parseItemsTicks item itemTicks len (rest.take len) +
+        (match parseItems item len (rest.take len) with
+          | .ok items => 1 + items.length
+          | .error _ => 0) ≤ (a + c + 1 + 1) * len + 3 := by
+      cases hi : parseItems item len (rest.take len) with
+      | ok items =>
+        have h2 := parseItems_ok_length_le hi
+        rw [hl] at h2
+        dsimp only
+        have hU : 1 + items.length ≤ 1 + len := by omega
+        exact body_arith h1 hU
+      | error e =>
+        dsimp only
+        have hU : 0 ≤ 1 + len := by omega
+        exact body_arith h1 hU
+    refine ⟨key, Nat.le_trans key ?_⟩
+    have : (a + c + 1 + 1) * len ≤ (a + c + 1 + 1) * rest.length := Nat.mul_le_mul_left _ (by omega)
+    clean_mdata
+    omega
+
+theorem keyShareKnownTicks_any (bs : Bytes) :
+    keyShareKnownTicks bs ≤ 2 * bs.length + (Gen.TlsNamedCurve.codes.length + 4) := by
+  unfold keyShareKnownTicks
+  have hc := codedTicks_le Gen.TlsNamedCurve.codes 2 bs
+  split
+  · next g n _ =>
+    have := opaqueTicks_le keyExchangeParam (bs.drop n)
+    have hd : (bs.drop n).length = bs.length - n := List.length_drop
+    clean_mdata
+    omega
+  · omega
+
+theorem keyShareKnownTicks_ok {bs : Bytes} {g : Nat} {key : Bytes} {n : Nat}
+    (h : parseKeyShareKnown bs = .ok ((g, key), n)) :
+    keyShareKnownTicks bs ≤ 2 * n + (Gen.TlsNamedCurve.codes.length + 4) := by
+  unfold parseKeyShareKnown at h
+  obtain ⟨⟨g', n1⟩, h1, h⟩ := exceptBind_ok_inv h
+  simp only at h
+  obtain ⟨⟨key', n2⟩, h2, h⟩ := exceptBind_ok_inv h
+  simp only [pure, Except.pure] at h
+  cases h
+  unfold keyShareKnownTicks
+  simp only [h1]
+  have hc := codedTicks_le Gen.TlsNamedCurve.codes 2 bs
+  have := opaqueTicks_ok_le h2
+  clean_mdata
+  omega
+
+theorem keyShareTicks_ok {bs : Bytes} {e : KeyShare} {n : Nat} (h : parseKeyShare bs = .ok (e, n)) :
+    keyShareTicks bs ≤ 2 * n + (Gen.TlsNamedCurve.codes.length + 7) := by
+  unfold parseKeyShare orElseInvalid at h
+  unfold keyShareTicks
+  split at h
+  · next hinv =>
+    -- the strict class refused the group code: no key vector was read
+    have hk := except_map_err_inv' hinv
+    have hcoded : parseCoded Gen.TlsNamedCurve.codes 2 bs = .error .invalidValue := by
+      unfold parseKeyShareKnown at hk
+      rcases exceptBind_err_inv hk with h1 | ⟨⟨g, n1⟩, _, hk⟩
+      · exact h1
+      · simp only at hk
+        rcases exceptBind_err_inv hk with h2 | ⟨⟨key, n2⟩, _, hk⟩
+        · exact absurd rfl (parseOpaque_sizeErr keyExchangeParam_ok.1 h2).ne_invalidValue
+        · cases hk
+    have hc := codedTicks_le Gen.TlsNamedCurve.codes 2 bs
+    unfold keyShareKnownTicks
+    simp only [hcoded]
+    clean_mdata
+    omega
+  · obtain ⟨⟨⟨g, key⟩, n'⟩, hk, he⟩ := except_map_ok_inv h
+    simp only [keyShareOfKnown] at he
+    cases he
+    have := keyShareKnownTicks_ok hk
+    clean_mdata
+    omega
+
+theorem keyShareTicks_any (bs : Bytes) : keyShareTicks bs ≤ 2 * bs.length + (Gen.TlsNamedCurve.codes.length + 7) := by
+  have := keyShareKnownTicks_any bs
+  unfold keyShareTicks; clean_mdata; omega
+
+theorem keyShareVecA_eq : keyShareVecA = 2 + (Gen.TlsNamedCurve.codes.length + 7) + 1 + 1 := by
+  unfold keyShareVecA; omega
+
+theorem sctTicks_any (bs : Bytes) :
+    sctTicks bs ≤ 2 * bs.length + (Gen.TlsSignatureAndHashAlgorithm.codes.length + 14) := by
+  unfold sctTicks
+  split
+  · omega
+  · next sct n hb =>
+    obtain ⟨_, _, hn, hle, _⟩ := parseBytes_ok_inv hb
+    clean_mdata
+    omega
+
+theorem sctTicks_ok {bs : Bytes} {s : Sct} {n : Nat} (h : parseSct bs = .ok (s, n)) :
+    sctTicks bs ≤ 2 * n + (Gen.TlsSignatureAndHashAlgorithm.codes.length + 14) := by
+  unfold parseSct at h
+  obtain ⟨⟨blob, n0⟩, h0, h⟩ := exceptBind_ok_inv h
+  have hn : n = n0 := by
+    simp only at h
+    obtain ⟨⟨ver, a⟩, _, h⟩ := exceptBind_ok_inv h
+    simp only at h
+    obtain ⟨⟨log, b⟩, _, h⟩ := exceptBind_ok_inv h
+    simp only at h
+    obtain ⟨⟨ts, c⟩, _, h⟩ := exceptBind_ok_inv h
+    simp only at h
+    obtain ⟨⟨ext, d⟩, _, h⟩ := exceptBind_ok_inv h
+    simp only at h
+    obtain ⟨⟨alg, e⟩, _, h⟩ := exceptBind_ok_inv h
+    simp only at h
+    obtain ⟨⟨sig, f⟩, _, h⟩ := exceptBind_ok_inv h
+    simp only at h
+    cases ts with
+    | none => cases h
+    | some t => simp only [pure, Except.pure] at h; cases h; rfl
+  subst hn
+  obtain ⟨_, _, hnn, _⟩ := parseBytes_ok_inv h0
+  unfold sctTicks
+  simp only [h0]
+  clean_mdata
+  omega
+
+theorem sctVecA_eq : sctVecA = 2 + (Gen.TlsSignatureAndHashAlgorithm.codes.length + 14) + 1 + 1 := by
+  unfold sctVecA; omega
+
+theorem ext2BodyA_ge :
+    nameVecA Gen.TlsProtocolName_wire ≤ ext2BodyA ∧ nameVecA Gen.TlsNextProtocolName_wire ≤ ext2BodyA ∧
+    keyShareVecA ≤ ext2BodyA ∧ sctVecA ≤ ext2BodyA ∧ codedVecA Gen.TlsTokenBindingParamater.codes ≤ ext2BodyA ∧
+    11 ≤ ext2BodyA := by
+  unfold ext2BodyA; omega
+
+theorem drop_drop' (rest : Bytes) (a b : Nat) : (rest.drop a).drop b = rest.drop (a + b) := by
+  rw [List.drop_drop]
+
+/-- a successful parse of a structured body is paid for by the bytes it consumes -/
+theorem ext2BodyTicks_ok {k : Ext2Kind} {len : Nat} {rest : Bytes} {b : Ext2Body} {m : Nat}
+    (h : parseExt2Body k len rest = .ok (b, m)) : ext2BodyTicks k len rest ≤ ext2BodyA * m + ext2BodyC := by
+  obtain ⟨hP, hN, hK, hS, hT, h11⟩ := ext2BodyA_ge
+  have hC : ext2BodyC = Gen.TlsNamedCurve.codes.length + 12 := rfl
+  cases k with
+  | serverName =>
+    simp only [parseExt2Body] at h
+    obtain ⟨⟨l, n1⟩, h1, h⟩ := exceptBind_ok_inv h
+    simp only at h
+    obtain ⟨⟨ty, n2⟩, h2, h⟩ := exceptBind_ok_inv h
+    simp only at h
+    obtain ⟨⟨host, n3⟩, h3, h⟩ := exceptBind_ok_inv h
+    simp only at h
+    split at h
+    · simp only [pure, Except.pure] at h
+      cases h
+      obtain ⟨hn1, _, _⟩ := parseNum_ok_inv h1
+      obtain ⟨hp2, _⟩ := parseIntEnum_ok_inv h2
+      obtain ⟨hn2, _, _⟩ := parseNum_ok_inv hp2
+      subst hn1; subst hn2
+      rw [drop_drop'] at h3
+      have e3 : (2 : Nat) + 1 = 3 := rfl
+      rw [e3] at h3
+      have ht := opaqueTicks_ok_le h3
+      obtain ⟨_, _, _, hn3, _⟩ := parseOpaque_ok_full h3
+      simp only [ext2BodyTicks, h3]
+      have : 4 * (2 + 1 + n3) ≤ ext2BodyA * (2 + 1 + n3) := Nat.mul_le_mul_right _ (by omega)
+      clean_mdata
+      omega
+    · cases h
+  | protocolNames =>
+    simp only [parseExt2Body] at h
+    obtain ⟨⟨items, m'⟩, h1, h⟩ := exceptBind_ok_inv h
+    simp only [pure, Except.pure] at h
+    cases h
+    exact lin_mono (namesVecTicks_ok h1) hP (by omega)
+  | nextProtocolNames =>
+    simp only [parseExt2Body] at h
+    obtain ⟨⟨items, m'⟩, h1, h⟩ := exceptBind_ok_inv h
+    simp only [pure, Except.pure] at h
+    cases h
+    obtain ⟨_, _, _, hm⟩ := parseVecBody_ok_full h1
+    rw [hm]
+    have := (vecBodyTicks_le (item := parseName nextProtocolNameParam Gen.TlsNextProtocolName_wire)
+      (itemTicks := nameTicks nextProtocolNameParam Gen.TlsNextProtocolName_wire) (a := 2)
+      (c := Gen.TlsNextProtocolName_wire.length + 5) (fun _ _ _ h => (parseName_ok_inv h).2.2)
+      (fun _ _ _ h => nameTicks_ok h) (fun bs _ _ => nameTicks_any _ _ bs) len rest).1
+    rw [← nameVecA_eq] at this
+    simp only [ext2BodyTicks]
+    have h2 : nameVecA Gen.TlsNextProtocolName_wire * len ≤ ext2BodyA * len := Nat.mul_le_mul_right _ hN
+    clean_mdata
+    omega
+  | statusRequest =>
+    simp only [parseExt2Body] at h
+    obtain ⟨⟨ty, n1⟩, h1, h⟩ := exceptBind_ok_inv h
+    simp only at h
+    obtain ⟨⟨ids, n2⟩, h2, h⟩ := exceptBind_ok_inv h
+    simp only at h
+    obtain ⟨⟨exts, n3⟩, h3, h⟩ := exceptBind_ok_inv h
+    simp only [pure, Except.pure] at h
+    cases h
+    obtain ⟨hp1, _⟩ := parseIntEnum_ok_inv h1
+    obtain ⟨hn1, _, _⟩ := parseNum_ok_inv hp1
+    subst hn1
+    have h2' : parseVecItems responderIdListParam (parseOpaque responderIdParam)
+        (fun d => (composeOpaque responderIdParam d).map (·.length)) (rest.drop 1) = .ok (ids, n2) := h2
+    have hv := vecItemsTicks_ok_le (item := parseOpaque responderIdParam) (itemTicks := opaqueTicks responderIdParam)
+      (a := 2) (c := 3)
+      (fun _ _ _ h => (parseOpaque_lenBound h).1) (fun _ _ _ h => opaqueTicks_ok_le h)
+      (fun bs _ _ => opaqueTicks_le _ bs) h2'
+    have ho := opaqueTicks_ok_le h3
+    simp only [ext2BodyTicks, h2']
+    have : 7 * (1 + n2 + n3) ≤ ext2BodyA * (1 + n2 + n3) := Nat.mul_le_mul_right _ (by omega)
+    clean_mdata
+    omega
+  | keyShareClient =>
+    simp only [parseExt2Body] at h
+    obtain ⟨⟨entries, m'⟩, h1, h⟩ := exceptBind_ok_inv h
+    simp only [pure, Except.pure] at h
+    cases h
+    have := vecItemsTicks_ok_le (itemTicks := keyShareTicks) (a := 2) (c := Gen.TlsNamedCurve.codes.length + 7)
+      (fun _ _ _ h => (parseKeyShare_ok_wf h).2.2) (fun _ _ _ h => keyShareTicks_ok h)
+      (fun bs _ _ => keyShareTicks_any bs) h1
+    rw [← keyShareVecA_eq] at this
+    exact lin_mono this hK (by omega)
+  | keyShareServer =>
+    simp only [parseExt2Body] at h
+    obtain ⟨⟨⟨g, key⟩, m'⟩, h1, h⟩ := exceptBind_ok_inv h
+    simp only [pure, Except.pure] at h
+    cases h
+    have := keyShareKnownTicks_ok h1
+    simp only [ext2BodyTicks]
+    have : 2 * m ≤ ext2BodyA * m := Nat.mul_le_mul_right _ (by omega)
+    clean_mdata
+    omega
+  | keyShareHelloRetry =>
+    simp only [parseExt2Body] at h
+    split at h
+    · cases h
+    · next hl =>
+      have hc := codedTicks_le Gen.TlsNamedCurve.codes 2 rest
+      simp only [ext2BodyTicks, hl, if_false, Bool.false_eq_true]
+      exact const_le_lin (by omega)
+  | tokenBinding =>
+    simp only [parseExt2Body, tokenBindingVersionCodec, minSize, seq, num] at h
+    obtain ⟨⟨⟨major, minor⟩, n1⟩, h1, h⟩ := exceptBind_ok_inv h
+    simp only at h
+    obtain ⟨⟨params, n2⟩, h2, h⟩ := exceptBind_ok_inv h
+    simp only [pure, Except.pure] at h
+    cases h
+    split at h1
+    · cases h1
+    · obtain ⟨⟨ma, a⟩, ha, h1⟩ := exceptBind_ok_inv h1
+      simp only at h1
+      obtain ⟨⟨mi, b'⟩, hb, h1⟩ := exceptBind_ok_inv h1
+      simp only [pure, Except.pure] at h1
+      cases h1
+      obtain ⟨hna, _, _⟩ := parseNum_ok_inv ha
+      obtain ⟨hnb, _, _⟩ := parseNum_ok_inv hb
+      subst hna; subst hnb
+      have e2 : (1 : Nat) + 1 = 2 := rfl
+      rw [e2] at h2
+      have := vecCodedTicks_ok_le h2
+      simp only [ext2BodyTicks]
+      have h3 : codedVecA Gen.TlsTokenBindingParamater.codes * n2 ≤ ext2BodyA * (1 + 1 + n2) :=
+        Nat.le_trans (Nat.mul_le_mul_right _ hT) (Nat.mul_le_mul_left _ (by omega))
+      clean_mdata
+      omega
+  | sctList =>
+    simp only [parseExt2Body] at h
+    obtain ⟨⟨items, m'⟩, h1, h⟩ := exceptBind_ok_inv h
+    simp only [pure, Except.pure] at h
+    cases h
+    have := vecItemsTicks_ok_le (itemTicks := sctTicks) (a := 2)
+      (c := Gen.TlsSignatureAndHashAlgorithm.codes.length + 14)
+      (fun _ _ _ h => (parseSct_ok_wf h).2.2) (fun _ _ _ h => sctTicks_ok h) (fun bs _ _ => sctTicks_any bs) h1
+    rw [← sctVecA_eq] at this
+    exact lin_mono this hS (by omega)
+
+/-- whatever the outcome, a structured body costs at most linearly in the data the class is given -/
+theorem ext2BodyTicks_any (k : Ext2Kind) (len : Nat) (rest : Bytes) :
+    ext2BodyTicks k len rest ≤ ext2BodyA * rest.length + ext2BodyC := by
+  obtain ⟨hP, hN, hK, hS, hT, h11⟩ := ext2BodyA_ge
+  have hC : ext2BodyC = Gen.TlsNamedCurve.codes.length + 12 := rfl
+  cases k with
+  | serverName =>
+    simp only [ext2BodyTicks]
+    have hd : (rest.drop 3).length = rest.length - 3 := List.length_drop
+    have ht := opaqueTicks_le serverNameParam (rest.drop 3)
+    have : 4 * rest.length ≤ ext2BodyA * rest.length := Nat.mul_le_mul_right _ (by omega)
+    split
+    · next host n3 h3 =>
+      obtain ⟨_, hle, _, _⟩ := parseOpaque_ok_full h3
+      have hd2 : ((rest.drop 3).drop serverNameParam.numSize).length ≤ rest.length := by
+        simp only [List.length_drop]; omega
+      clean_mdata
+      omega
+    · omega
+  | protocolNames => exact lin_mono (namesVecTicks_any _ _ _ rest) hP (by omega)
+  | nextProtocolNames =>
+    have := (vecBodyTicks_le (item := parseName nextProtocolNameParam Gen.TlsNextProtocolName_wire)
+      (itemTicks := nameTicks nextProtocolNameParam Gen.TlsNextProtocolName_wire) (a := 2)
+      (c := Gen.TlsNextProtocolName_wire.length + 5) (fun _ _ _ h => (parseName_ok_inv h).2.2)
+      (fun _ _ _ h => nameTicks_ok h) (fun bs _ _ => nameTicks_any _ _ bs) len rest).2
+    rw [← nameVecA_eq] at this
+    simp only [ext2BodyTicks]
+    have h2 : nameVecA Gen.TlsNextProtocolName_wire * rest.length ≤ ext2BodyA * rest.length :=
+      Nat.mul_le_mul_right _ hN
+    clean_mdata
+    omega
+  | statusRequest =>
+    simp only [ext2BodyTicks]
+    have hd : (rest.drop 1).length = rest.length - 1 := List.length_drop
+    have hv := vecItemsTicks_le (p := responderIdListParam) (item := parseOpaque responderIdParam)
+      (itemTicks := opaqueTicks responderIdParam) (a := 2) (c := 3)
+      (fun _ _ _ h => (parseOpaque_lenBound h).1) (fun _ _ _ h => opaqueTicks_ok_le h)
+      (fun bs _ _ => opaqueTicks_le _ bs) (rest.drop 1)
+    have h9 : 9 * rest.length ≤ ext2BodyA * rest.length := Nat.mul_le_mul_right _ (by omega)
+    split
+    · next ids n2 _ =>
+      have ho := opaqueTicks_le requestExtensionsParam ((rest.drop 1).drop n2)
+      have hd2 : ((rest.drop 1).drop n2).length ≤ rest.length := by simp only [List.length_drop]; omega
+      clean_mdata
+      omega
+    · omega
+  | keyShareClient =>
+    have := vecItemsTicks_le (p := keyShareListParam) (item := parseKeyShare) (itemTicks := keyShareTicks) (a := 2)
+      (c := Gen.TlsNamedCurve.codes.length + 7)
+      (fun _ _ _ h => (parseKeyShare_ok_wf h).2.2) (fun _ _ _ h => keyShareTicks_ok h)
+      (fun bs _ _ => keyShareTicks_any bs) rest
+    rw [← keyShareVecA_eq] at this
+    exact lin_mono this hK (by omega)
+  | keyShareServer =>
+    have := keyShareKnownTicks_any rest
+    simp only [ext2BodyTicks]
+    have : 2 * rest.length ≤ ext2BodyA * rest.length := Nat.mul_le_mul_right _ (by omega)
+    clean_mdata
+    omega
+  | keyShareHelloRetry =>
+    have hc := codedTicks_le Gen.TlsNamedCurve.codes 2 rest
+    simp only [ext2BodyTicks]
+    split <;> exact const_le_lin (by omega)
+  | tokenBinding =>
+    have := vecCodedTicks_le tokenBindingParam Gen.TlsTokenBindingParamater.codes 1 (rest.drop 2)
+    have hd : (rest.drop 2).length = rest.length - 2 := List.length_drop
+    simp only [ext2BodyTicks]
+    have h3 : codedVecA Gen.TlsTokenBindingParamater.codes * (rest.drop 2).length ≤ ext2BodyA * rest.length :=
+      Nat.le_trans (Nat.mul_le_mul_right _ hT) (Nat.mul_le_mul_left _ (by omega))
+    clean_mdata
+    omega
+  | sctList =>
+    have := vecItemsTicks_le (p := sctListParam) (item := parseSct) (itemTicks := sctTicks) (a := 2)
+      (c := Gen.TlsSignatureAndHashAlgorithm.codes.length + 14)
+      (fun _ _ _ h => (parseSct_ok_wf h).2.2) (fun _ _ _ h => sctTicks_ok h) (fun bs _ _ => sctTicks_any bs) rest
+    rw [← sctVecA_eq] at this
+    exact lin_mono this hS (by omega)
+
+/-- a class that declines the declared length has done no work beyond the header check -/
+theorem ext2BodyTicks_declined {k : Ext2Kind} {len : Nat} (hd : k.declines len = true) (rest : Bytes) :
+    ext2BodyTicks k len rest = 0 := by
+  cases k <;> simp [Ext2Kind.declines] at hd
+  simp [ext2BodyTicks, hd]
+
 /-- a successful body parse is paid for by the bytes it consumes, and stays inside the buffer -/
 theorem extBody_ok {kind : ExtKind} (hb : KindBounded kind) {len : Nat} {rest : Bytes} {body : ExtBody} {m : Nat}
     (h : parseExtBody kind len rest = .ok (body, m)) :
@@ -457,7 +873,10 @@ theorem extBody_ok {kind : ExtKind} (hb : KindBounded kind) {len : Nat} {rest : 
     obtain ⟨⟨b, m'⟩, h1, h2⟩ := exceptBind_ok_inv h
     simp only [pure, Except.pure] at h2
     cases h2
-    exact ⟨by simp only [extBodyTicks]; omega, parseExt2Body_lenBound h1⟩
+    refine ⟨?_, parseExt2Body_lenBound h1⟩
+    have hA : ext2BodyA ≤ extBodyA := by unfold extBodyA; omega
+    have hC : ext2BodyC ≤ extBodyC := by unfold extBodyC; omega
+    exact lin_mono (ext2BodyTicks_ok h1) hA hC
   | unusedData =>
     simp only [parseExtBody] at h
     obtain ⟨⟨d, m'⟩, h1, h2⟩ := exceptBind_ok_inv h
@@ -547,7 +966,10 @@ theorem extBody_any {kind : ExtKind} (hb : KindBounded kind) (len : Nat) (rest :
   obtain ⟨hA2, hAv⟩ := extBodyA_ge
   obtain ⟨hC4, hCv⟩ := extBodyC_ge
   cases kind with
-  | ext2 k => simp only [extBodyTicks]; omega
+  | ext2 k =>
+    have hA : ext2BodyA ≤ extBodyA := by unfold extBodyA; omega
+    have hC : ext2BodyC ≤ extBodyC := by unfold extBodyC; omega
+    exact lin_mono (ext2BodyTicks_any k len rest) hA hC
   | unusedData => exact const_le_lin (by simp only [extBodyTicks]; omega)
   | vecCoded p codes k => exact lin_mono (vecCodedTicks_le p codes k rest) hb (by omega)
   | renegotiationInfo => exact lin_mono (opaqueTicks_le _ rest) hA2 (by omega)
@@ -570,51 +992,19 @@ theorem extBody_any {kind : ExtKind} (hb : KindBounded kind) (len : Nat) (rest :
     have := codedTicks_le Gen.TlsVersion.codes 2 rest
     omega
 
-/-- a body parser that rejects the data as an invalid value has looked at the declared data only -/
-theorem extBody_invalidValue {kind : ExtKind} (hk : KindOk kind) {len : Nat} {rest : Bytes}
-    (hlen : len ≤ rest.length) (h : parseExtBody kind len rest = .error .invalidValue) :
-    extBodyTicks kind len rest ≤ extBodyA * len + extBodyC := by
-  obtain ⟨hA2, hAv⟩ := extBodyA_ge
-  obtain ⟨hC4, hCv⟩ := extBodyC_ge
-  have hraw : parseRaw (len : Int) rest = .ok (rest.take len, len) := by
-    unfold parseRaw
-    have h1 : ¬ ((len : Int) < 0) := by omega
-    have h2 : ¬ (rest.length < len) := by omega
-    simp [h1, h2]
-  by_cases he2 : kind.isExt2 = true
-  · cases kind <;> simp [ExtKind.isExt2] at he2
-    simp only [extBodyTicks]; omega
-  rcases parseExtBody_invalidValue_inv_old hk (by simpa using he2) hlen h with hrej | ⟨hsvs, _⟩
-  · cases kind with
-    | unusedData => exact const_le_lin (by simp only [extBodyTicks]; omega)
-    | padding =>
-      have hmin : (rest.take len).length = len := by rw [List.length_take]; exact Nat.min_eq_left hlen
-      simp only [extBodyTicks, hraw, hmin]
-      have : 2 * len ≤ extBodyA * len := Nat.mul_le_mul_right _ hA2
-      omega
-    | supportedVersionsServer =>
-      refine const_le_lin ?_
-      simp only [extBodyTicks]
-      have := codedTicks_le Gen.TlsVersion.codes 2 rest
-      omega
-    | ext2 k => simp [ExtKind.isExt2] at he2
-    | _ => exact absurd hrej id
-  · cases kind <;> simp [ExtKind.isSupportedVersionsServer] at hsvs
-    refine const_le_lin ?_
-    simp only [extBodyTicks]
-    have := codedTicks_le Gen.TlsVersion.codes 2 rest
-    omega
-
-/-- the bodies parsed during the walk: paid for by the bytes the extension consumes -/
+/-- the bodies parsed during the walk: paid for by the bytes the extension consumes.  Every class is given the
+declared extension data only, so whatever a body parser does — accept, reject as an invalid value (the extension is
+then kept by the fallback class and consumes `4 + len`), or fail — costs at most `extBodyA * len + extBodyC` -/
 theorem walkExtBodyTicks_spec (t len : Nat) (bs : Bytes) (h4 : 4 ≤ bs.length) (hlen : len ≤ (bs.drop 4).length)
     (variants : List (String × Nat)) :
     (∀ e n, walkExtVariants t len bs variants = .ok (e, n) →
         walkExtBodyTicks t len bs variants ≤ extBodyA * n + extBodyC ∧ n ≤ bs.length) ∧
-      (walkExtVariants t len bs variants = .error .invalidValue →
+      (completeExt (walkExtVariants t len bs variants) = .error .invalidValue →
         walkExtBodyTicks t len bs variants ≤ extBodyA * len + extBodyC) ∧
       walkExtBodyTicks t len bs variants ≤ extBodyA * bs.length + extBodyC := by
   obtain ⟨hC4, hCv⟩ := extBodyC_ge
   have hd : (bs.drop 4).length = bs.length - 4 := List.length_drop
+  have htl : ((bs.drop 4).take len).length = len := by rw [List.length_take]; omega
   induction variants with
   | nil =>
     refine ⟨fun e n h => ?_, fun _ => ?_, ?_⟩
@@ -641,14 +1031,16 @@ theorem walkExtBodyTicks_spec (t len : Nat) (bs : Bytes) (h4 : 4 ≤ bs.length) 
           simp only
           have hko := extKindOf_ok hk
           have hkb := extKindOf_bounded hk
-          have hany := extBody_any hkb len (bs.drop 4)
-          have hany' : extBodyTicks kind len (bs.drop 4) ≤ extBodyA * bs.length + extBodyC :=
+          have hany := extBody_any hkb len ((bs.drop 4).take len)
+          rw [htl] at hany
+          have hany' : extBodyTicks kind len ((bs.drop 4).take len) ≤ extBodyA * bs.length + extBodyC :=
             Nat.le_trans hany (lin_le (by omega))
-          cases hb : parseExtBody kind len (bs.drop 4) with
+          cases hb : parseExtBody kind len ((bs.drop 4).take len) with
           | ok r =>
             obtain ⟨body, m⟩ := r
             simp only
             obtain ⟨hc, hm⟩ := extBody_ok hkb hb
+            rw [htl] at hm
             refine ⟨fun e n h => ?_, fun h => (by cases h), by omega⟩
             cases h
             exact ⟨by have := lin_le (A := extBodyA) (C := extBodyC) (show m ≤ 4 + m by omega); omega, by omega⟩
@@ -656,18 +1048,18 @@ theorem walkExtBodyTicks_spec (t len : Nat) (bs : Bytes) (h4 : 4 ≤ bs.length) 
             cases e0 with
             | invalidType =>
               -- the class declined the length (only a class of Ext2.lean does): the walk goes on
-              have hz : extBodyTicks kind len (bs.drop 4) = 0 := by
-                rcases parseExtBody_err hko hb with hben | ⟨k, rfl, _⟩
+              have hz : extBodyTicks kind len ((bs.drop 4).take len) = 0 := by
+                rcases parseExtBody_err hko hb with hben | ⟨k, rfl, hsp⟩
                 · exact absurd rfl hben.not_invalidType
-                · rfl
+                · rcases hsp with ⟨_, he⟩ | ⟨hdc, _⟩
+                  · simp [unmodelled] at he
+                  · exact ext2BodyTicks_declined hdc _
               simp only [hz, Nat.zero_add]
               exact ih
             | invalidValue =>
               simp only
-              refine ⟨fun e n h => (by cases h), fun _ => ?_, by omega⟩
-              have := extBody_invalidValue hko hlen hb
-              omega
-            | notEnough k => simp only; exact ⟨fun e n h => (by cases h), fun h => (by cases h), by omega⟩
+              exact ⟨fun e n h => (by cases h), fun _ => by omega, by omega⟩
+            | notEnough k => simp only; exact ⟨fun e n h => (by cases h), fun _ => by omega, by omega⟩
             | tooMuch k => simp only; exact ⟨fun e n h => (by cases h), fun h => (by cases h), by omega⟩
             | crash k => simp only; exact ⟨fun e n h => (by cases h), fun h => (by cases h), by omega⟩
 
@@ -675,7 +1067,7 @@ theorem walkExtBodyTicks_spec (t len : Nat) (bs : Bytes) (h4 : 4 ≤ bs.length) 
 theorem extVariant_shape (variants : List (String × Nat)) (bs : Bytes) :
     (extVariantTicks variants bs ≤ extHeaderC ∧ ∃ e, parseExtVariant variants bs = .error e) ∨
     (∃ t len, 4 ≤ bs.length ∧ len ≤ (bs.drop 4).length ∧ parseNum .network 2 (bs.drop 2) = .ok (len, 2) ∧
-      parseExtVariant variants bs = walkExtVariants t len bs variants ∧
+      parseExtVariant variants bs = completeExt (walkExtVariants t len bs variants) ∧
       extVariantTicks variants bs =
         walkExtVariantsTicks t len bs variants * extHeaderTicks bs + walkExtBodyTicks t len bs variants) := by
   have hH := extHeaderTicks_le bs
@@ -745,7 +1137,7 @@ theorem extTicks_ok {variants : List (String × Nat)} {bs : Bytes} {e : Ext} {n 
     · rw [hv] at h; cases h
     · obtain ⟨hok, _, _⟩ := walkExtBodyTicks_spec t len bs h4 hlen variants
       have hw := walkCost_le t len bs variants
-      obtain ⟨hb, hn⟩ := hok e n (hv ▸ h)
+      obtain ⟨hb, hn⟩ := hok e n (completeExt_ok_inv (hv ▸ h))
       refine ⟨?_, hn⟩
       rw [hc]
       omega
